@@ -891,6 +891,23 @@ impl<'a> Sim<'a> {
     // C04: redaction table
 
     pub fn probe_redact(&mut self) {
+        // half of the probes use another room version than the run's: a homeserver thread serves
+        // rooms of every version, and nothing may carry over from one redaction to the next
+        let run_v = self.cfg.v;
+        let v = if self.t.chance(1, 2) { run_v } else { 1 + self.t.below(11) as u8 };
+        if v != run_v {
+            self.bump("redact.probes-other-version");
+        }
+        let saved_rules = self.rules.clone();
+        let saved_v = self.cfg.v;
+        self.rules = real::rules(v);
+        self.cfg.v = v;
+        self.probe_redact_inner();
+        self.rules = saved_rules;
+        self.cfg.v = saved_v;
+    }
+
+    fn probe_redact_inner(&mut self) {
         let v = self.cfg.v;
         let ty = *self.t.pick(&[
             "m.room.member", "m.room.member", "m.room.create", "m.room.join_rules", "m.room.power_levels", "m.room.aliases", "m.room.history_visibility", "m.room.redaction",
